@@ -113,7 +113,8 @@ IEExp(in, k) == IF EffForm(in) = "unit" THEN {}
 Expected(in, k) == IF IsFrom(k) THEN FromExp(in, k) ELSE IF IsIE(k) THEN IEExp(in, k) ELSE IntoExp(in, k)
 
 \* the `?` sites of the fallible twin: members whose inline expression is fallible there
-Sites(in, k) == {i \in Mapped(in, k) : HasAction(in.ms[i])}
+\* (a quick `return` replaces the whole body: no member expression is evaluated, so there is no site)
+Sites(in, k) == IF in.ret THEN {} ELSE {i \in Mapped(in, k) : HasAction(in.ms[i])}
 
 \* vars(...) -- C08: evaluated once each, in declaration order, before any member expression
 VarsPrefix(in) == [j \in 1..in.vars |-> "v" \o N2S(j)]
